@@ -45,12 +45,15 @@ func checkV2Scores(a spec.Assignment) error {
 		return fmt.Errorf("cannot build %v: %v", a, err)
 	}
 	want := v2O().Score(a)
-	got := o.Scores()
 	sets := [][]int{want.Base, want.Temporal, want.Env}
-	for i, name := range adapt.ScoreNames["2.0"] {
-		k, ok := tenths(got[i])
-		if !ok || !spec.InSet(sets[i], k) {
-			return fmt.Errorf("v2 %s of %s = %v, guide equations give %v tenths", name, spec.Canon(spec.V2, a), got[i], sets[i])
+	// each score is asked for twice: a second call on the same object is checked like the first
+	for round := 0; round < 2; round++ {
+		got := o.Scores()
+		for i, name := range adapt.ScoreNames["2.0"] {
+			k, ok := tenths(got[i])
+			if !ok || !spec.InSet(sets[i], k) {
+				return fmt.Errorf("v2 %s of %s = %v (call %d on the object), guide equations give %v tenths", name, spec.Canon(spec.V2, a), got[i], round+1, sets[i])
+			}
 		}
 	}
 	sub := o.SubScores()
@@ -109,7 +112,14 @@ func TestC05(t *testing.T) {
 		}
 	}
 	perBase := v2Total / 729
+	want := int64(v2Total)
+	if env.Light {
+		want = v2Total / 9
+	}
 	parallelFor(729, func(b int) {
+		if env.Light && b%9 != int(env.Seed%9) {
+			return // the light (32-bit) process walks a ninth of the base combinations, rotating with the seed
+		}
 		var ties, neg, capped, nontriv, total int64
 		bi := b
 		ia := bi % 3
@@ -188,7 +198,7 @@ func TestC05(t *testing.T) {
 										ad := adj[cri][iri][ari]
 										eset := v2O().EnvSetIdx(v2O().TemporalSetIdx(ad.set, ei, ri, ci), cdi, tdi)
 										ge := o.EnvironmentalScore()
-										good := in(eset, ge) && in(bset, o.BaseScore()) && in(tset, o.TemporalScore()) &&
+										good := in(eset, ge) && o.EnvironmentalScore() == ge && in(bset, o.BaseScore()) && in(tset, o.TemporalScore()) &&
 											math.Abs(o.Impact()-wantImp) <= 1e-9 && math.Abs(o.Exploitability()-wantExp) <= 1e-9
 										if !good {
 											report(idx)
@@ -223,6 +233,9 @@ func TestC05(t *testing.T) {
 	})
 	h.R.AddExact(nTotal, nNontriv)
 	h.R.SetExhaustive(nTotal == v2Total)
+	if env.Light {
+		h.R.Count("light process: assignments of a ninth of the base combinations", nTotal)
+	}
 	h.R.Count("assignments", nTotal)
 	h.R.Count("environmental result admits two conforming values (exact tie somewhere)", nTies)
 	h.R.Count("base combinations with a tie (of 729)", tiesB)
@@ -234,7 +247,7 @@ func TestC05(t *testing.T) {
 		w := v2O().Score(a)
 		h.R.Sample("class", map[string]any{"index": idx, "vector": spec.Canon(spec.V2, a), "oracle_tenths": map[string]any{"base": w.Base, "temporal": w.Temporal, "environmental": w.Env}})
 	}
-	if nTotal != v2Total {
+	if nTotal != want {
 		h.R.Inconclusive("enumeration visited %d of %d assignments", nTotal, v2Total)
 	}
 	if m := atomic.LoadInt64(&mismatchIdx); m >= 0 {
